@@ -2,6 +2,7 @@ import IastModel.Rewriter.Visitor
 import IastModel.Spec.ArgsMirror
 import IastModel.Lemmas.Monad
 import IastModel.Lemmas.Tree
+import IastModel.Lemmas.MirCall
 /-
   C03 — hooks receive the true result and the true operands, in order (static half).
   Proved: for every operand that is not a `+` chain the operand handler pushes exactly the operand it
@@ -46,5 +47,39 @@ theorem tpl_hook_mirrors (cfg : Config) (exprs quasis : List Node) (sp : Span)
     argsMirrorSite cfg (ddCall (.tpl exprs quasis sp) (exprs.map fun e => .arg none e) cfg.tplName sp) = none := by
   have : exprs.map mirrorOf = exprs.map fun e => Node.arg none e := List.map_congr_left h
   simp [argsMirrorSite, argsMirrorFirst, mirrorTpl, ddCall, ddCallee, argsEq, this, Node.eqNSL_refl]
+
+/-! ### every hook call the rewriter builds mirrors the operation in its first argument
+
+`MirOK cfg h`: the specification `argsMirrorSite` (the oracle applied to every hook site of every real
+output) accepts the site `h`, or classifies it as "a `+` chain that is not made of literals only is among
+the operands and was not passed on" — the omission recorded as a known finding (KNOWN_FINDINGS.txt, C03).
+No other mismatch class is possible, for any operands, any argument list (spreads, `apply` arrays with
+holes and spreads, sums of literals), any state. -/
+
+/-- `l + r` -/
+theorem plus_hook_built_mirrors (cfg : Config) (l r : Node) (sp : Span) (s : St) (e' : Node)
+    (h : (toDdBinary cfg (.bin "+" l r sp) s).1 = some e') :
+    ∃ first args asg, e' = ddParen first args asg cfg.plusName sp ∧ MirOK cfg (ddCall first args cfg.plusName sp) :=
+  toDdBinary_mirror cfg l r sp s e' h
+
+/-- `target += r` -/
+theorem plus_assign_hook_built_mirrors (cfg : Config) (op : String) (left r : Node) (sp : Span) (s : St) (e' : Node)
+    (h : (toDdAssign cfg (.assign op left r sp) s).1 = some e') :
+    ∃ target first args asg, e' = .assign "=" target (ddParen first args asg cfg.plusName sp) sp ∧
+      MirOK cfg (ddCall first args cfg.plusName sp) :=
+  toDdAssign_mirror cfg op left r sp s e' h
+
+/-- template literals -/
+theorem template_hook_built_mirrors (cfg : Config) (es qs : List Node) (sp : Span) (s : St) (e' : Node)
+    (h : (toDdTpl cfg (.tpl es qs sp) s).1 = some e') :
+    ∃ first args asg, e' = ddParen first args asg cfg.tplName sp ∧ MirOK cfg (ddCall first args cfg.tplName sp) :=
+  toDdTpl_mirror cfg es qs sp s e' h
+
+/-- method calls: `recv.m(…)`, `m(…)` without receiver, `X.prototype.m.call|apply(this, …)`, with a
+    spread `this`, with `apply` arrays -/
+theorem call_hook_built_mirrors (cfg : Config) (callee : Node) (cargs : List Node) (csp : Span) (s : St)
+    (e' : Node) (tag : String) (h : (toDdCall cfg (.call callee cargs csp) s).1 = some (e', tag)) :
+    ∃ first args asg name sp, e' = ddParen first args asg name sp ∧ MirOK cfg (ddCall first args name sp) :=
+  toDdCall_mirror cfg callee cargs csp s e' tag h
 
 end IastModel.C03
